@@ -56,20 +56,20 @@ account_t * account_t::find_account(const string& acct_name,
   if (i != accounts.end())
     return (*i).second;
 
-  char buf[8192];
-
   string::size_type sep = acct_name.find(':');
   assert(sep < 256|| sep == string::npos);
 
+  // This function calls itself once per segment of the name, so the first
+  // segment is kept in a string, not in a large buffer on the stack
+  string       first_segment;
   const char * first, * rest;
   if (sep == string::npos) {
     first = acct_name.c_str();
     rest  = NULL;
   } else {
-    std::strncpy(buf, acct_name.c_str(), sep);
-    buf[sep] = '\0';
+    first_segment = string(acct_name, 0, sep);
 
-    first = buf;
+    first = first_segment.c_str();
     rest  = acct_name.c_str() + sep + 1;
   }
 
